@@ -318,7 +318,10 @@ pub(crate) mod verif_inject {
 
     /// the next `accept()` on `lst` (in this thread) returns `err` instead of calling the OS
     pub(crate) fn inject(lst: &MioListener, err: io::Error) {
-        let fd = fd(lst);
+        inject_fd(fd(lst), err)
+    }
+
+    pub(crate) fn inject_fd(fd: i32, err: io::Error) {
         INJECTED.with(|q| {
             let mut q = q.borrow_mut();
             match q.iter_mut().find(|(f, _)| *f == fd) {
